@@ -790,6 +790,13 @@ class Engine:
                                 work.append(s2)
                         forked = True
                         break
+                    if pl[0][0] == 'S' and s['p']['proj'] and s['p']['proj'][0]['k'] == 'deref' and \
+                            body.local_ty(s['p']['l']).get('k') == 'ptr' and not mir.in_tracing(s.get('span', blk['tspan'])):
+                        # `*raw_ptr = v` / `(*raw_ptr).f = v`: a store into memory behind a raw pointer is an effect like
+                        # `raw_ptr.write(v)` (what it addresses is classified by the rules)
+                        st.effects.append({'kind': 'store', 'callee': 'place-store', 'ptr': ('ref', pl), 'value': v, 'ty': s['p']['ty'],
+                                           'args': [('ref', pl), v], 'site': (body.path, bb, body.where(bb)), 'tracing': False,
+                                           'fn': None, 'pointees': [None, None]})
                     self.write(st, pl, v)
                 elif s['k'] == 'setdiscr':
                     pass
